@@ -291,6 +291,8 @@ class KernelOracle:
             if val is None:
                 continue
             if name == "current_target_logd":
+                if self.refs.get("ref_logd") is None:
+                    continue                      # this kernel family has no full-target reference (pCN caches the likelihood)
                 ref = self.refs["ref_logd"](x)
             elif name == "current_target_grad":
                 ref = self.refs["ref_grad"](x)
